@@ -193,6 +193,13 @@ def run(ctx) -> Report:
     add("c*f2 + 2*f1", S(P(const, f2), P(two, f1)))
     add("(f2*f1)/c", uflmodel.m_division(P(f2, f1), const))
     add("conj(f2)*real(f1)", P(cmb["Conj"](f2), cmb["Real"](f1)))
+    # geometric terminals: the reference-cell coordinate is linear in x on an affine cell, the Jacobian constant
+    xc = poly_terminal("Xc", (2,), 1, "CellCoordinate", domain=dom, cellwise_constant=False)
+    jac = poly_terminal("Jc", (2, 2), 0, "Jacobian", domain=dom, cellwise_constant=True)
+    add("X[0]   (reference-cell coordinate)", idx(xc, 0))
+    add("X[0]*X[1]*f1", P(P(idx(xc, 0), idx(xc, 1)), f1))
+    add("X[1]**3 + f2", S(uflmodel.m_power(idx(xc, 1), three), f2))
+    add("J[0,1]*f2*x[0]", P(P(idx(jac, 0, 1), f2), idx(x, 0)))
     # ---- mixed element, identity pullbacks (P1 x P2 x vector P3) ------------------------------------
     subs = [element(1), element(2), element(3, (2,))]
     mixed = element(3, (4,), "IdentityPullback", subs)
